@@ -280,6 +280,11 @@ func DefaultTreeCfg() TreeCfg {
 
 // GenLeaf draws a scalar.
 func GenLeaf(t *rapid.T, cfg TreeCfg) V {
+	if cfg.LeafExtra != nil {
+		if v, ok := cfg.LeafExtra(t); ok {
+			return v
+		}
+	}
 	w := []int{3, 3, 8, 8, 10}
 	if cfg.NoFloat {
 		w[3] = 0
